@@ -131,8 +131,13 @@ class FindInConstants(FindByGlob):
             if not root:
                 continue
 
-            # nothing to search, we yield
+            # nothing to search, we yield - if the value is one of the constants, below a parent that exists
             if "*" not in str(root):
+
+                if root.get(self.key) not in self.values:
+                    continue
+                if self.parent_source and root != root.parent and not self.parent_source.exists(root.parent):
+                    continue
 
                 if str(root) not in done:
                     done.add(str(root))  # several typed searches may come down to the same root
@@ -154,6 +159,8 @@ class FindInConstants(FindByGlob):
                     # the constant "key" is not searched
                     # we can simply yield the parent and the key's value
                     if root.get(self.key) != "*":
+                        if root.get(self.key) not in self.values:
+                            continue
                         result = found_root / root.get(self.key)
                         if str(result) not in done:
                             done.add(str(result))
@@ -167,8 +174,10 @@ class FindInConstants(FindByGlob):
                         generator = self._append_value(found_root, done, as_sid=as_sid)
                         yield from generator
 
-            # no parent search, we just need to append the constant values
+            # no parent search, we just need to append the constant values (below a parent that exists)
             else:
+                if self.parent_source and root != root.parent and not self.parent_source.exists(root.parent):
+                    continue
                 generator = self._append_value(root, done, as_sid=as_sid)
                 yield from generator
 
